@@ -165,4 +165,29 @@ PROGRAMS = [
                               IF(B('and', U('not_empty', V('a')), U('not_empty', V('b'))),
                                  [RET(B('+', A(V('a'), 'n'), A(V('b'), 'v')))]), RET(I(0))]),
 ]
+PROGRAMS += [
+    # the most recently related partner is unrelated, then another one is related: the set behind the link has
+    # seen a removal of its last element and must still deliver everything related afterwards
+    ('relate_unrelate_relate', [('create', 'a', 'A'), ('create', 'b1', 'B'), ('create', 'b2', 'B'), ('create', 'b3', 'B'), ('create', 'b4', 'B'),
+                                seta('b1', 'v', I(1)), seta('b2', 'v', I(20)), seta('b3', 'v', P('p1')), seta('b4', 'v', P('p2')),
+                                ('relate', 'b1', 'a', 1, None), ('relate', 'b2', 'a', 1, None), ('unrelate', 'b2', 'a', 1, None),
+                                ('relate', 'b3', 'a', 1, None), ('relate', 'b4', 'a', 1, None), ('unrelate', 'b3', 'a', 1, None),
+                                ('relate', 'b2', 'a', 1, None),
+                                ('select_rel', 'many', 'bs', V('a'), [('B', 1, None)], None), let('s', I(0)),
+                                FE('b', 'bs', [inc('s', A(V('b'), 'v'))]),
+                                RET(B('+', B('*', U('cardinality', V('bs')), I(1000)), V('s')))]),
+    # select any / one through a chain whose first intermediate instance is a dead end
+    ('chain_dead_end', [('create', 'a', 'A'), ('create', 'b1', 'B'), ('create', 'b2', 'B'), ('create', 'b3', 'B'),
+                        ('relate', 'b1', 'a', 1, None), ('relate', 'b2', 'a', 1, None), ('relate', 'b3', 'a', 1, None),
+                        ('create', 'a2', 'A'), ('create', 'l2', 'L'), ('create', 'l3', 'L'),
+                        ('relate_using', 'a2', 'b2', 'l2', 3), ('relate_using', 'a2', 'b3', 'l3', 3),
+                        seta('l2', 'w', P('p1')), seta('l3', 'w', P('p2')),
+                        ('select_rel', 'any', 'x', V('a'), [('B', 1, None), ('L', 3, None)], None),
+                        ('select_rel', 'any', 'y', V('a'), [('B', 1, None), ('L', 3, None)], B('==', A(SEL, 'w'), P('p2'))),
+                        ('select_rel', 'many', 'zs', V('a'), [('B', 1, None), ('L', 3, None), ('A', 3, None)], None),
+                        let('r', U('cardinality', V('zs'))),
+                        IF(U('not_empty', V('x')), [inc('r', I(10))]),
+                        IF(U('not_empty', V('y')), [inc('r', I(100))]),
+                        RET(V('r'))]),
+]
 NAMES = [n for n, _ in PROGRAMS]
